@@ -348,6 +348,7 @@ func history(c *ctx, ids []int, encMode, decMode, consume int, abandon bool) {
 	var heldDec *encoding.TSDDecoder
 	var lastEnc *encoding.TSDEncoder
 	var lastDec *encoding.TSDDecoder
+	var prevM *blk // the last non-empty block that went through the decoder
 	for step, id := range ids {
 		b := histBlock(id)
 		var e *encoding.TSDEncoder
@@ -396,8 +397,25 @@ func history(c *ctx, ids []int, encMode, decMode, consume int, abandon bool) {
 				c.viol("reuse", scen, "TSDEncoder.Bytes", "step %d: empty block through a reused encoder encodes to %d bytes", step, len(data))
 				return
 			}
+			if decMode == 2 && heldDec != nil && prevM != nil {
+				// a field without data in the time range of its neighbour (what the stream reader hands the shared decoder
+				// for such a field): the decoder that read - partly or completely - another block before delivers nothing
+				heldDec.ResetWithTimeRange(data, prevM.start, prevM.end())
+				for sl := int(prevM.start); sl <= int(prevM.end()); sl++ {
+					if heldDec.HasValueWithSlot(uint16(sl)) {
+						c.viol("reuse", scen+" reused", "TSDDecoder.ResetWithTimeRange", "step %d: an empty block (0 bytes) read through a decoder that was used for block %s before delivers a value at slot %d (%016x)", step, prevM, sl, heldDec.Value())
+						return
+					}
+				}
+				heldDec.ResetWithTimeRange(data, prevM.start, prevM.end())
+				if heldDec.Next() && heldDec.HasValue() {
+					c.viol("reuse", scen+" reused", "TSDDecoder.ResetWithTimeRange", "step %d: an empty block (0 bytes) read sequentially through a decoder that was used for block %s before delivers a value at slot %d", step, prevM, heldDec.Slot())
+					return
+				}
+			}
 			continue
 		}
+		prevM = m
 		// the reused encoder must produce something that decodes to the block: first with the reused decoder
 		mk := func() *encoding.TSDDecoder {
 			var d *encoding.TSDDecoder
